@@ -134,7 +134,7 @@ class Explorer:
             "paths": 0, "paths_completed": 0, "paths_infeasible": 0, "paths_unsupported": 0,
             "paths_error": 0, "branch_queries": 0, "branch_unknown": 0,
             "obligations": 0, "discharged_syntactic": 0, "discharged_solver": 0,
-            "refuted": 0, "inconclusive": 0, "solver_s": 0.0, "reached": 0,
+            "refuted": 0, "inconclusive": 0, "solver_s": 0.0, "reached": 0, "discharged_linear_abstraction": 0,
         }
         self.violations = []  # dicts
         self.inconclusive = []
@@ -164,16 +164,83 @@ class Explorer:
         self.stats["solver_s"] += time.time() - t0
         return str(r), s, atoms
 
+    def _solve_linear_abstraction(self, conds, timeout_ms=2000):
+        """Sound pre-step: every distinct non-linear monomial becomes a fresh
+        real variable (plus the sign facts of even powers and of atoms with
+        known sign); if this relaxation is unsat, so is the original."""
+        mvars = {}
+        nonneg = set()
+
+        def mono(m):
+            v = mvars.get(m)
+            if v is None:
+                v = z3.Real("m%d" % len(mvars))
+                mvars[m] = v
+                if all(e % 2 == 0 or ATOMS[a].kind in ("root",) or (ATOMS[a].lo is not None and ATOMS[a].lo >= 0) for a, e in m):
+                    nonneg.add(m)
+            return v
+
+        def poly(p):
+            terms = []
+            for m, c in p.items():
+                q = z3.Q(c.numerator, c.denominator)
+                terms.append(q if not m else q * mono(m))
+            return z3.Sum(terms) if terms else z3.RealVal(0)
+
+        def cond(c):
+            op = c.op
+            if op == "true":
+                return z3.BoolVal(True)
+            if op == "false":
+                return z3.BoolVal(False)
+            if op == "and":
+                return z3.And(*[cond(a) for a in c.args])
+            if op == "or":
+                return z3.Or(*[cond(a) for a in c.args])
+            e = poly(c.args[0])
+            return {"==": e == 0, "!=": e != 0, "<": e < 0, "<=": e <= 0}[op]
+
+        s = z3.Solver()
+        s.set("timeout", timeout_ms)
+        atoms = set()
+        for c in conds:
+            s.add(cond(c))
+            atoms |= c.atoms()
+        for i in alg.closure(atoms):
+            a = ATOMS[i]
+            m = ((i, 1),)
+            if a.lo is not None:
+                s.add(mono(m) >= z3.Q(a.lo.numerator, a.lo.denominator))
+            if a.hi is not None:
+                s.add(mono(m) <= z3.Q(a.hi.numerator, a.hi.denominator))
+            if a.kind == "root":
+                s.add(mono(m) >= 0)
+        for m in list(nonneg):
+            s.add(mvars[m] >= 0)
+        t0 = time.time()
+        r = s.check()
+        self.stats["solver_s"] += time.time() - t0
+        return str(r)
+
     def feasible(self, conds):
         # quick syntactic filter
         for c in conds:
             if c.const_value() is False:
                 return False
         self.stats["branch_queries"] += 1
+        if self._solve_linear_abstraction(conds, 1000) == "unsat":
+            return False
         r, _, _ = self._solve(conds, self.branch_timeout_ms)
         if r == "unknown":
             self.stats["branch_unknown"] += 1
         return r != "unsat"
+
+    def confirm_path(self):
+        """sat / unsat / unknown for the current path condition (longer budget)"""
+        if self._solve_linear_abstraction(self.pc, 2000) == "unsat":
+            return "unsat"
+        r, _, _ = self._solve(self.pc, self.check_timeout_ms)
+        return r
 
     # ---- decisions -------------------------------------------------------
     def decide(self, cond: Cond) -> bool:
@@ -254,6 +321,12 @@ class Explorer:
             self.stats["discharged_syntactic"] += 1
             return True
         neg = cond.negate()
+        if self._solve_linear_abstraction(self.pc + [neg]) == "unsat":
+            self.stats["discharged_solver"] += 1
+            self.stats["discharged_linear_abstraction"] = self.stats.get("discharged_linear_abstraction", 0) + 1
+            if len(self.samples) < 3:
+                self.samples.append({"label": label, "choices": self._choices(), "negated_claim": repr(neg)[:300], "verdict": "unsat (monomial-linearised relaxation, QF_LRA)"})
+            return True
         r, s, atoms = self._solve(self.pc + [neg], self.check_timeout_ms)
         if len(self.samples) < 3:
             self.samples.append({"label": label, "choices": self._choices(), "negated_claim": repr(neg)[:300], "verdict": r})
